@@ -288,7 +288,7 @@ func ruleConversions(c *Ctx) {
 				c.Ok(site, p.Pos(valExpr), "same representation")
 			case tag == 'u' && spc.target == "int64":
 				// need v <= MaxInt64 on the unsigned word
-				okU := false
+				okU, complU := false, false
 				atom := wordAtomOf(sp, p, fd, valExpr)
 				for _, cd := range sp.Conds {
 					if cd.Other != "" || cd.At > at || cd.L.String() != atom {
@@ -305,13 +305,24 @@ func ruleConversions(c *Ctx) {
 					// exact unsigned comparison: v <= k with k <= MaxInt64, or v < k with k <= 2^63
 					if (cd.Op == token.LEQ && k <= math.MaxInt64) || (cd.Op == token.LSS && k <= 1<<63) {
 						okU = true
+						if (cd.Op == token.LEQ && k == math.MaxInt64) || (cd.Op == token.LSS && k == 1<<63) {
+							complU = true
+						}
 					}
 				}
 				c.Check(okU, site, p.Pos(valExpr), "rejected above MaxInt64",
 					"an unsigned entry is converted to int64 without rejecting values above MaxInt64", "[9223372036854775808] read as int")
+				if okU {
+					c.Check(complU, site+":complete", p.Pos(valExpr), "every value up to MaxInt64 is delivered",
+						"an unsigned entry that fits into int64 is rejected (the guard is tighter than v <= MaxInt64)", "SetUInt(math.MaxInt64) followed by Int()")
+				}
 			case tag == 'l' && spc.target == "uint64":
 				iv := guardInterval(p, sp, wordAtomOf(sp, p, fd, valExpr), at)
 				c.Check(iv.lo >= 0 || (iv.lo == -1 && iv.loOpen), site, p.Pos(valExpr), "rejected below 0", "a signed entry is converted to uint64 without rejecting negative values (admitted "+iv.String()+")", "[-1] read as uint")
+				if iv.lo >= 0 || (iv.lo == -1 && iv.loOpen) {
+					c.Check(((iv.lo == 0 && !iv.loOpen) || (iv.lo == -1 && iv.loOpen)) && math.IsInf(iv.hi, 1), site+":complete", p.Pos(valExpr), "every non-negative value is delivered",
+						"a non-negative signed entry is rejected by Uint (admitted "+iv.String()+")", "[0] or [9223372036854775807] read as uint")
+				}
 			case tag == 'd':
 				fa := floatAtomOf(sp, p, fd, valExpr)
 				iv := guardInterval(p, sp, fa, at)
